@@ -32,13 +32,13 @@ def merge(name):
         if not re.search(r"^mod %s;" % re.escape(mod), main, re.M):
             main = main.replace("mod util;\n", "mod %s;\nmod util;\n" % mod)
     # dispatch arms
-    for m in re.finditer(r'^\s*("[a-z0-9_]+")\s*=>\s*([a-z0-9_]+)::run\(&toks\[1\.\.\]\),\s*$', main_sub, re.M):
-        cmd, mod = m.group(1), m.group(2)
+    for m in re.finditer(r'^\s*("[a-z0-9_]+")\s*=>\s*([a-z0-9_]+)::(run[a-z0-9_]*)\(&toks\[1\.\.\]\),\s*$', main_sub, re.M):
+        cmd, mod, fn = m.group(1), m.group(2), m.group(3)
         if mod in ("bits", "budget", "findings", "prog") and cmd in main:
             continue
         if cmd + " =>" in main:
             continue
-        arm = "            %s => %s::run(&toks[1..]),\n" % (cmd, mod)
+        arm = "            %s => %s::%s(&toks[1..]),\n" % (cmd, mod, fn)
         main = main.replace("            other => {\n", arm + "            other => {\n", 1)
     # keep the mod list sorted
     mods = sorted(set(re.findall(r"^mod ([a-z0-9_]+);", main, re.M)))
